@@ -72,6 +72,8 @@ def rand_tags(rng, maxk=6):
 
 def rand_response(rng, rid):
     code = rng.choice([200, 204, 301, 400, 404, 500, 503, rng.randint(100, 999)])
+    if rng.random() < 0.12:
+        return "%d g%d %d" % (rng.choice([0, 0, code]), rng.choice([0, 1, 65536, 10**9]), rid)   # get_body_and_reprocess
     return "%d %s %d" % (code, rng.choice(["-", "0", "1", str(rng.randint(0, 5000))]), rid)
 
 
@@ -183,7 +185,8 @@ def fixed_cases():
                          (1, "lr ok 200 0 5"), (1, "wr %s %s 1 0 ok 200 0 6" % (xtok("GET"), xtok("/"))), (0, "drop"), (1, "inst 2"),
                          (0, "log info %s 0" % utok("c")), (1, "drop"), (1, "drop")]))
     # wrapper: Ok / Err with response / Err without; starts clean; leaves its tags behind
-    for hr in ["ok 201 3 7", "err %s 0 1 %s b:1 some 404 - 8" % (utok("bad"), utok("why")), "err - 1 0 none", "err %s 1 0 none" % utok("boom")]:
+    for hr in ["ok 201 3 7", "err %s 0 1 %s b:1 some 404 - 8" % (utok("bad"), utok("why")), "err - 1 0 none", "err %s 1 0 none" % utok("boom"),
+               "ok 0 g1000 9", "err - 0 0 some 0 g65536 10", "ok 200 g0 11"]:
         cs.append(render(1, [(0, "inst 1"), (0, "add %s u8:1" % utok("old")), (0, "wr %s %s 42 - %s" % (xtok("POST"), xtok("/a/b"), hr)),
                              (0, "log info %s 0" % utok("after"))]))
         cs.append(render(2, [(1, "inst 1"), (0, "add %s u8:1" % utok("old")), (0, "wb %s %s 42 10" % (xtok("PUT"), xtok("/a"))),
